@@ -33,6 +33,23 @@ def split_executions(lines, marker='"e":"Cfg"'):
     return execs
 
 
+_RE_SEED = re.compile(r',?"seed":\d+')
+
+
+def distinct_keys(lines, marker='"e":"Cfg"'):
+    """One key per DISTINCT execution: the md5 of its event log with the scheduler seed removed (two
+    seeds that produced the same observable history count once)."""
+    import hashlib
+    keys = set()
+    for ex in split_executions(lines, marker):
+        h = hashlib.md5()
+        for ln in ex:
+            h.update(_RE_SEED.sub("", ln).encode())
+            h.update(b"\n")
+        keys.add(h.hexdigest())
+    return keys
+
+
 def _validate_chunk(module, cfg, execs, rundir, tag, env_extra, timeout_s, max_rejects, dfs):
     """Returns (n_accepted, [ (exec_lines, offset_in_exec, printed) ... ], states)"""
     rejected = []
@@ -91,6 +108,10 @@ def validate(ctx, module, cfg, lines, *, marker='"e":"Cfg"', chunk=2500, paralle
     """Validate all executions.  Returns dict(executions=, accepted=, rejected=[...]).  Each rejected
     item: dict(events=[parsed lines], at=<index of first unexplainable event>)."""
     execs = split_executions(lines, marker)
+    try:
+        ctx.distinct.update(distinct_keys(lines, marker))
+    except Exception:
+        pass
     chunks = [execs[i:i + chunk] for i in range(0, len(execs), chunk)]
     res = {"executions": len(execs), "accepted": 0, "rejected": [], "events": len(lines),
            "devused": set(), "devexecs": 0}
